@@ -711,6 +711,9 @@ impl Typer {
             if let Some(method_ty) = trait_env.lookup_trait_method(&type_ident, &member_ident) {
                 let inst_method_ty = self.inst_ty(&method_ty);
 
+                // The receiver is typed once: first to see whether it is a `dyn` value, and the
+                // result is reused below when it is not.
+                let mut typed_receiver: Option<tast::Expr> = None;
                 if let tast::Ty::TFunc { params, ret_ty } = &inst_method_ty
                     && !args.is_empty()
                 {
@@ -801,12 +804,16 @@ impl Typer {
                             ty: (**ret_ty).clone(),
                         };
                     }
+                    typed_receiver = Some(receiver_tast);
                 }
 
                 let mut args_tast = Vec::new();
                 let mut arg_types = Vec::new();
                 for arg in args.iter() {
-                    let arg_tast = self.infer_expr(genv, local_env, diagnostics, *arg);
+                    let arg_tast = match typed_receiver.take() {
+                        Some(receiver) => receiver,
+                        None => self.infer_expr(genv, local_env, diagnostics, *arg),
+                    };
                     arg_types.push(arg_tast.get_ty());
                     args_tast.push(arg_tast);
                 }
